@@ -6,6 +6,9 @@ PROPS = {
     "C05": {"modules": ["RtrProps.C05"],
             "theorems": ["Rtr.C05.query_bytes", "Rtr.C05.connecting_query", "Rtr.C05.reset_query", "Rtr.C05.after_eod",
                          "Rtr.C05.foreign_session_refused", "Rtr.C05.stable_until", "Rtr.C05.reset_causes"]},
+    "C07": {"modules": ["RtrProps.C07"],
+            "theorems": ["Rtr.C07.last_update_written", "Rtr.C07.invariant", "Rtr.C07.invariant_init", "Rtr.C07.expiry_at_open",
+                         "Rtr.C07.expiry_after_error", "Rtr.C07.stop_clears", "Rtr.C07.others_untouched"]},
     "C13": {"modules": ["RtrProps.C13"],
             "theorems": ["Rtr.C13.version_monotone", "Rtr.C13.version_supported", "Rtr.C13.step_version_le",
                          "Rtr.C13.downgrade_first_pdu", "Rtr.C13.downgrade_error_report",
